@@ -124,6 +124,17 @@ def in_function(exc, name):
     return False
 
 
+def open_failure(exc):
+    """'connect:<cls>' / 'identify:<cls>' for an exception out of proxy.open_gateway"""
+    if in_function(exc, "list_identity_details"):
+        if in_client_next(exc):
+            return "identify:rxerror"
+        if isinstance(exc, AssertionError) and str(exc).startswith("No response to List Identity"):
+            return "identify:noidentity"
+        return "identify:other:" + type(exc).__name__
+    return "connect:" + exc_class(exc, connecting=True)
+
+
 CONNECT_MSG = [("Failed to receive any response", "noresponse"),
                ("Failed to receive EtherNet/IP response", "noenip"),
                ("Partial response parsed", "partial-held"),
@@ -583,7 +594,9 @@ class C13(Suite):
                 else:
                     faults.append(None)
             faults.append(None)
-            yield {"kind": "proxy", "depth": depth, "multiple": multiple, "uses": uses, "faults": faults}
+            yield {"kind": "proxy", "depth": depth, "multiple": multiple, "uses": uses, "faults": faults,
+                   "ident": rng.random() < 0.5}
+        yield from self.open_phase_cases(tier, rng, tagsets)
         if not quick:
             for _ in range(6):
                 yield {"kind": "poll", "depth": rng.choice([1, 2]), "multiple": 0, "tags": rng.choice(tagsets),
@@ -591,7 +604,58 @@ class C13(Suite):
                        "faults": [{"dir": "s2c", "k": rng.randrange(60, 700), "mode": "eof"}, None][:1]
                                  + [{"dir": "s2c", "k": rng.randrange(0, 500), "mode": "eof"},
                                     {"dir": "s2c", "k": rng.randrange(100, 900), "mode": rng.choice(["eof", "quiet"])},
-                                    None]}
+                                    None],
+                       "ident": rng.random() < 0.5}
+
+    def open_reference(self, tagset):
+        """a fault-free first use of an identifying proxy: where the open phase (Register + List Identity) ends in
+        either direction"""
+        for _attempt in range(5):
+            case = {"kind": "proxy", "depth": 2, "multiple": 0, "uses": [tagset], "faults": [None], "ident": True}
+            out = self.impl(case)
+            if out.endswith(";ok") and self.relay.conns:
+                s2c = net.frame_ends(b"".join(self.relay.conns[0]["s2c"]))
+                c2s = net.frame_ends(bytes(self.relay.conns[0]["c2s"]))
+                if len(s2c) >= 3 and len(c2s) >= 3:
+                    return s2c, c2s
+        raise RuntimeError("no fault-free reference run of the proxy through the relay: " + out)
+
+    def open_phase_cases(self, tier, rng, tagsets):
+        """the gateway-opening phase of the proxy (connect, Register, and - without an identity_default - List
+        Identity): a fault at every byte offset of that part of the reply stream (and of the request stream), then a
+        second use against the healthy device, which must reconnect and return correct data"""
+        quick = tier == "quick"
+        tagset = tagsets[0]
+        s2c, c2s = self.open_reference(tagset)
+        reg_end, open_end, first_data_end = s2c[0], s2c[1], s2c[2]
+
+        def case(ident, direction, k, mode, uses=2):
+            return {"kind": "proxy", "depth": 2, "multiple": 0, "uses": [tagset] * uses, "ident": ident,
+                    "faults": [{"dir": direction, "k": k, "mode": mode}, None], "phase": "open"}
+        span = range(0, first_data_end + 2)                 # Register, List Identity, and into the first data reply
+        if quick:
+            marks = {0, 1, 2, 4, reg_end - 1, reg_end, reg_end + 1, reg_end + 2, reg_end + 4, reg_end + 23,
+                     reg_end + 24, reg_end + 25, open_end - 1, open_end, open_end + 1, open_end + 24, first_data_end}
+            ks = sorted(marks | set(rng.sample(list(span), 10)))
+        else:
+            ks = list(span)
+        for k in ks:
+            yield case(True, "s2c", k, "eof")
+        for k in (ks if not quick else sorted(rng.sample(ks, 8))):
+            if k <= reg_end + 30:
+                yield case(False, "s2c", k, "eof")
+        qs = [0, reg_end, (reg_end + open_end) // 2, open_end] if quick else \
+            sorted({0, 3, reg_end, reg_end + 1, reg_end + 24, (reg_end + open_end) // 2, open_end - 1, open_end,
+                    open_end + 10})
+        for k in qs:
+            yield case(True, "s2c", k, "quiet")
+        creq = range(0, c2s[2] + 1)                         # Register request, List Identity request, first data request
+        for k in (sorted(rng.sample(list(creq), 8)) if quick else creq):
+            yield case(True, "c2s", k, "eof")
+        # the List Identity reply lost entirely, or replaced by silence on the request side
+        yield {"kind": "proxy", "depth": 2, "multiple": 0, "uses": [tagset] * 2, "ident": True,
+               "faults": [{"dir": "drop", "frames": [1]}, None], "phase": "open"}
+        yield case(True, "c2s", c2s[0] + 5, "quiet")
 
     # ---------------------------------------------------------------------------------------- model line
     @staticmethod
@@ -624,7 +688,7 @@ class C13(Suite):
         uses = "|".join(self.issued_token(self.issued_for(ops, False, c["multiple"])) for ops in obs["uses"])
         conns = "|".join(",".join([b for b in blocks if b] + [term]) for blocks, term in obs["conns"])
         fmt = "e" if kind == "poll" else "n"
-        return f"prx {fmt} {c['depth']} {uses or '-'} {conns or 'Q'}"
+        return f"prx {fmt} {1 if c.get('ident') else 0} {c['depth']} {uses or '-'} {conns or 'Q'}"
 
     @staticmethod
     def api_depth(c):
@@ -733,7 +797,7 @@ class C13(Suite):
             f and f.get("dir") == "drop" for f in c["faults"])
         timeout = self.last_timeout = self.RELAY_TIMEOUT_QUIET if quiet else self.RELAY_TIMEOUT
         via = proxy(host=self.relay.addr[0], port=self.relay.addr[1], timeout=timeout, depth=c["depth"],
-                    multiple=c["multiple"], identity_default="C13")
+                    multiple=c["multiple"], identity_default=None if c.get("ident") else "C13")
         outs, uses, allvals = [], [], []
         c["_obs"] = None
         try:
@@ -751,8 +815,7 @@ class C13(Suite):
                 except Exception as exc:
                     if n is None:
                         n = self.relay.count - 1
-                        outs.append(f"c{n}:connect:{exc_class(exc, connecting=True)}" if self.relay.count > before
-                                    else "refused")
+                        outs.append(f"c{n}:{open_failure(exc)}" if self.relay.count > before else "refused")
                     else:
                         outs.append(f"c{n}:{len(vals)};{exc_class(exc)}")
                     assert via.gateway is None or True
@@ -780,7 +843,7 @@ class C13(Suite):
         quiet = any(f and f.get("mode") == "quiet" for f in c["faults"])
         timeout = self.last_timeout = self.RELAY_TIMEOUT_QUIET if quiet else self.RELAY_TIMEOUT
         via = proxy(host=self.relay.addr[0], port=self.relay.addr[1], timeout=timeout, depth=c["depth"],
-                    multiple=c["multiple"], identity_default="C13")
+                    multiple=c["multiple"], identity_default=None if c.get("ident") else "C13")
         tags = [self.RELAY_OPS[i][0] for i in c["tags"]]
         events, current = [], []
         relay = self.relay
@@ -803,9 +866,9 @@ class C13(Suite):
 
         def failure(exc):
             del current[:]
-            connecting = in_function(exc, "open_gateway")
-            cls = exc_class(exc, connecting=connecting)
-            events.append(("fail", relay.count - 1, "connect:" + cls if connecting else cls, via.gateway is not None))
+            opening = in_function(exc, "open_gateway")
+            events.append(("fail", relay.count - 1, open_failure(exc) if opening else exc_class(exc),
+                           via.gateway is not None))
             process.check()
 
         th = threading.Thread(target=poll.run, daemon=True, kwargs=dict(
@@ -822,7 +885,7 @@ class C13(Suite):
                 outs.append(f"c{ev[1]}:{len(ev[2])};ok")
                 allvals.append({"vals": [v for _, v in ev[2]], "params": [p for p, _ in ev[2]], "gateway_after": True})
             else:
-                outs.append(f"c{ev[1]}:{ev[2]}" if ev[2].startswith("connect:") else f"c{ev[1]}:?;{ev[2]}")
+                outs.append(f"c{ev[1]}:{ev[2]}" if ev[2].startswith(("connect:", "identify:")) else f"c{ev[1]}:?;{ev[2]}")
                 allvals.append({"vals": [], "gateway_after": ev[3], "failed": True})
         c["_obs"] = {"uses": [[["t", t] for t in tags]] * len(outs), "conns": self.relay_conn_events(c["faults"]),
                      "vals": allvals, "alive": th.is_alive()}
@@ -930,9 +993,14 @@ class C13(Suite):
                 return f"use {u} ran on connection {conn}, which had failed before"
             if failed_before and last_conn is not None and conn <= last_conn:
                 return f"use {u} after a failure did not reconnect (connection {conn})"
+            faults = c.get("faults", [])
+            healthy = conn < len(faults) and faults[conn] is None
             if not ok:
                 if info.get("gateway_after"):
                     return f"use {u} failed but the proxy kept its gateway"
+                if failed_before and healthy:
+                    return (f"use {u} after a failure found a healthy device (connection {conn} carries no fault) "
+                            f"and did not return its data: {body}")
                 used_failed.add(conn)
             failed_before, last_conn = (not ok), conn
         return None
@@ -969,7 +1037,13 @@ class C13(Suite):
             return f"relay:{c['dir']}:{c['mode']}:{'multi' if c['multiple'] else 'single'}:{end}"
         toks = out.split("|")
         bad = sum(1 for t in toks if not t.endswith(";ok"))
-        return f"{c['kind']}:{bad}-failed-of-{len(toks)}:{'recovered' if bad and toks[-1].endswith(';ok') else 'end'}"
+        if c.get("phase") == "open":
+            first = toks[0].split(":", 1)[1] if ":" in toks[0] else toks[0]
+            first = first.split(";")[-1] if ";" in first else first
+            return (f"proxy-open:{'ident' if c.get('ident') else 'noident'}:{c['faults'][0]['dir']}:"
+                    f"{c['faults'][0].get('mode', '-')}:{first}:{'recovered' if toks[-1].endswith(';ok') else 'NOT'}")
+        return (f"{c['kind']}:{'ident' if c.get('ident') else 'noident'}:{bad}-failed-of-{len(toks)}:"
+                f"{'recovered' if bad and toks[-1].endswith(';ok') else 'end'}")
 
     def nontrivial(self, c, out):
         key = json.dumps({k: v for k, v in c.items() if k != "_obs"}, sort_keys=True)
